@@ -272,6 +272,45 @@ def run(prog, rep, tier='quick', config='default'):
                           detail='the automatic rate look-up is not confined to "no explicit rate" (%s) and "currency == USD" (%s): an explicit rate must '
                                  'always win and other currencies must carry their own rate' % (has_rate_guard, has_usd_guard))
 
+    # ------------------------------------------------------------------ R12h: the rate put on a row is the loader's answer for it
+    # in the module that fills in missing rates, every `Some(rate)` that is returned or stored into a row derives from the
+    # RateLoader's answer (directly, or through a helper of the module, whose own `Some(..)` values are judged the same way) — never
+    # from a memo of what other rows carried, a rate field of another row, or a constant
+    LMOD = 'portfolio::io::tx_loader'
+    n_some = 0
+    for fn in prog.product_fns():
+        if mir.is_testsupport(fn.name) or not fn.name.startswith(LMOD):
+            continue
+        bad = None
+        n_here = 0
+        for i, b in fn.blocks.items():
+            for st in b['stmts']:
+                r = st['r']
+                if r['rv'] != 'agg' or not r['kind'].endswith('Option::Some') or not r['ops']:
+                    continue
+                ty = fn.ty.get(st['dst']['l'], '') or ''
+                if st['dst']['p'] or not re.search(r'Option<rust_decimal::Decimal>', ty):
+                    continue
+                n_here += 1
+                o = mir.provenance(fn, r['ops'][0], follow_all_call_args=True)
+                via = [x for x in o.calls if x.callee == eff.name or (prog.resolve(x.callee, fn.crate) is not None and
+                                                                     prog.resolve(x.callee, fn.crate).name.startswith(LMOD))]
+                if not via and bad is None:
+                    src = sorted({short(x.callee) for x in o.calls if not re.search(r'Try>::branch$|deref$|clone$', x.callee + ' ' + x.decl)})[:4]
+                    bad = (st, ', '.join(src) or ('a parameter' if o.params else 'a constant'))
+        if not n_here:
+            continue
+        n_some += n_here
+        k = '%s|filled-in-rate-is-the-loaders-answer' % fn.name.split('::{')[0]
+        if bad:
+            rep.violation('R12h', k, where=fn.where(bad[0]), fn=fn.name,
+                          detail='a rate that is filled into a row does not come from the RateLoader\'s answer for that row but from %s: another '
+                                 'row\'s rate (e.g. an explicit one given for a different security) can end up on this row' % bad[1])
+        else:
+            rep.ok('R12h', k, fn=fn.name, where='%s:%d' % (fn.file, fn.line), detail='%d Some(rate) value(s), all derived from the RateLoader\'s answer' % n_here)
+    if n_some == 0:
+        rep.violation('R12h', 'anchor-lost:filled-in-rates', detail='anchor lost: no Some(rate) value built in portfolio::io::tx_loader')
+
 
 def r12f(prog, rep):
     """the direction of a published quote (USD->CAD noon series as is, CAD->USD daily series inverted) is decided by which
